@@ -119,7 +119,22 @@ package swarm
 // the swarm wires the detector to its own two counters: the UDP filter to the UDP counter, the IPv6 filter to the
 // IPv6 counter (never the same counter for both kinds), in the configured mode
 //@ func NewSwarm
-//@ prop C20
+//@ prop C20 C06
 //@ ensures result1 == nil ==> result0 != nil && result0.bhd != nil && result0.bhd.udp == result0.udpBHF && result0.bhd.ipv6 == result0.ipv6BHF &&
 //@         result0.bhd.readOnly == result0.readOnlyBHD
+//@ noframe
+// C06: the emitter's two callbacks deliver Connected / Disconnected for the given connection to every registered
+// notifiee, unconditionally (also while the swarm is shutting down)
+//@ callsite newConnectionEventsEmitter#0 requires arg2 == closure(0) && arg3 == closure(2)
+//@ closure 0
+//@ ensures ncalls(notifyAll, 0) == 1 && arg(notifyAll, 0, 0) == s && arg(notifyAll, 0, 1) == closure(1)
+//@ noframe
+//@ closure 1
+//@ ensures ncalls(Connected, 0) == 1 && arg(Connected, 0, 0) == f && arg(Connected, 0, 1) == s && arg(Connected, 0, 2) == c
+//@ noframe
+//@ closure 2
+//@ ensures ncalls(notifyAll, 0) == 1 && arg(notifyAll, 0, 0) == s && arg(notifyAll, 0, 1) == closure(3)
+//@ noframe
+//@ closure 3
+//@ ensures ncalls(Disconnected, 0) == 1 && arg(Disconnected, 0, 0) == f && arg(Disconnected, 0, 1) == s && arg(Disconnected, 0, 2) == c
 //@ noframe
